@@ -275,6 +275,7 @@ func (x *vlExec) project() M {
 	v["feegrant"] = err == nil
 	_, isval := app.StakingKeeper.GetValidator(ctx, sdk.ValAddress(x.vx.Addr))
 	v["isval"] = isval
+	v["ghost"] = false // set by the specification when a converted account is followed (VestingLock!Carry)
 	return M{"now": x.now(), "va": M{"vx1": v}}
 }
 
@@ -603,7 +604,7 @@ var vlForwarder = []byte{
 var vlSelfPaid = map[string]bool{"send": true, "send_erc20": true, "multisend": true, "dao_fund": true, "gov_deposit": true,
 	"convert_coin": true, "eth_value": true, "liquidate": true, "delegate": true, "pc_delegate": true, "pc_delegate_contract": true,
 	"create_validator": true, "pc_create_validator": true, "pc_create_validator_contract": true,
-	"cancel_unbond": true, "pc_cancel_unbond": true, "undelegate": true, "withdraw": true, "grant_authz": true, "grant_fee": true, "grant_pc": true}
+	"cancel_unbond": true, "pc_cancel_unbond": true, "convert_back": true, "undelegate": true, "withdraw": true, "grant_authz": true, "grant_fee": true, "grant_pc": true}
 
 // vlPcForwarder: a contract that forwards its calldata to the staking precompile and reverts if the call fails
 var vlPcForwarder = []byte{
@@ -969,6 +970,13 @@ func (x *vlExec) step(st vlStep) {
 		selfCosmos(400000, func(fee *big.Int) []sdk.Msg {
 			return []sdk.Msg{distrtypes.NewMsgWithdrawDelegatorReward(x.vx.Addr, v)}
 		})
+	case "convert_back":
+		// MsgConvertVestingAccount: the vesting account asks to become a plain account
+		selfCosmos(400000, func(fee *big.Int) []sdk.Msg {
+			return []sdk.Msg{vestingtypes.NewMsgConvertVestingAccount(x.vx.Addr)}
+		})
+	case "exec_convert_back":
+		execBy(1_200_000, vestingtypes.NewMsgConvertVestingAccount(x.vx.Addr))
 	case "clawback":
 		bz, err = x.cosmosTx(x.a1, 600000, x.cosmosFee(600000), nil, vestingtypes.NewMsgClawback(x.a1.Addr, x.vx.Addr, x.a1.Addr))
 	case "merge", "convert_into", "convert_into_stake":
@@ -1092,7 +1100,7 @@ func (x *vlExec) authzGrants() []sdk.Msg {
 	exp := x.n.Time.Add(100000 * time.Hour)
 	var msgs []sdk.Msg
 	for _, m := range []sdk.Msg{&banktypes.MsgSend{}, &ucdaotypes.MsgFund{}, &govv1beta1.MsgDeposit{}, &erc20types.MsgConvertCoin{}, &stakingtypes.MsgDelegate{},
-		&stakingtypes.MsgCreateValidator{}, &stakingtypes.MsgCancelUnbondingDelegation{}} {
+		&stakingtypes.MsgCreateValidator{}, &stakingtypes.MsgCancelUnbondingDelegation{}, &vestingtypes.MsgConvertVestingAccount{}} {
 		g, err := authz.NewMsgGrant(x.vx.Addr, x.a3.Addr, authz.NewGenericAuthorization(sdk.MsgTypeURL(m)), &exp)
 		if err != nil {
 			return nil
@@ -1235,8 +1243,8 @@ func vlRunScenario(tw *TraceWriter, scn int, src string, sc vlScript, stats map[
 func vlRandomScript(r *rand.Rand, seed int64) vlScript {
 	pick := func(xs ...string) string { return xs[r.Intn(len(xs))] }
 	lens := []int64{1, 20, 20, 40, 60}
-	liq := r.Intn(2) == 0
-	flavor := r.Intn(5) // 0: liquidation-prone (vested early, locked long)
+	flavor := r.Intn(7) // 0: liquidation-prone (vested early, locked long); 1: conversion-prone (same shape); 2: crossing denominations
+	liq := r.Intn(2) == 0 || flavor == 2
 	mkAmt := func() map[string]string {
 		m := map[string]string{vlBond: fmt.Sprint(1 + r.Intn(3)), vlLiq: "0"}
 		if liq {
@@ -1273,15 +1281,28 @@ func vlRandomScript(r *rand.Rand, seed int64) vlScript {
 			vesting = append(vesting, vlPeriod{Len: lens[r.Intn(len(lens))], Amt: amt})
 		}
 	}
-	if flavor == 0 {
+	if flavor == 0 || flavor == 1 {
 		for i := range vesting {
 			vesting[i].Len = 1
 		}
 		for i := range lockup {
-			lockup[i].Len = 60
+			lockup[i].Len = 60 + int64(flavor)*60
 		}
 	}
-	switch r.Intn(6) {
+	if flavor == 2 {
+		// two denominations whose lockup and vesting schedules cross in opposite directions: for a while one
+		// denomination is unlocked but not vested and the other vested but not unlocked
+		a, b := fmt.Sprint(1+r.Intn(2)), fmt.Sprint(1+r.Intn(2))
+		da, db := vlBond, vlLiq
+		if r.Intn(2) == 0 {
+			da, db = vlLiq, vlBond
+		}
+		l1, l2 := lens[1+r.Intn(3)], lens[1+r.Intn(3)]
+		lockup = []vlPeriod{{Len: l1, Amt: map[string]string{da: a, db: "0"}}, {Len: l2, Amt: map[string]string{da: "0", db: b}}}
+		vesting = []vlPeriod{{Len: l1, Amt: map[string]string{da: "0", db: b}}, {Len: l2, Amt: map[string]string{da: a, db: "0"}}}
+		tot = map[string]int64{da: vlBig(a).Int64(), db: vlBig(b).Int64()}
+	}
+	switch r.Intn(6) + 10*map[bool]int{true: 1, false: 0}[flavor == 2] {
 	case 0: // instant unlock: no lockup schedule
 		lockup = []vlPeriod{{Len: 0, Amt: map[string]string{vlBond: fmt.Sprint(tot[vlBond]), vlLiq: fmt.Sprint(tot[vlLiq])}}}
 	case 1: // instant vesting
@@ -1304,6 +1325,29 @@ func vlRandomScript(r *rand.Rand, seed int64) vlScript {
 	deleg := []string{"delegate", "exec_delegate", "pc_delegate", "pc_delegate_contract", "create_validator",
 		"exec_create_validator", "pc_create_validator", "pc_create_validator_contract"}
 	nsteps := 10 + r.Intn(10)
+	if flavor == 1 {
+		// vesting done, lockup running: stake (all of) the locked coins, ask for the conversion to a plain
+		// account, unstake, wait for the maturity, spend - long before the lockup ends
+		sc.Cfg.Init.StartOff = -5
+		sc.Steps = append(sc.Steps,
+			vlStep{Ev: pick("delegate", "pc_delegate", "exec_delegate", "create_validator"), Args: M{"how": pick("max", "max", "all", "half")}},
+			vlStep{Ev: pick("convert_back", "convert_back", "exec_convert_back"), Args: M{}},
+			vlStep{Ev: "undelegate", Args: M{"how": "all"}},
+			vlStep{Ev: "tick", Args: M{"to": "unbond", "off": int64(1)}},
+			vlStep{Ev: "tick", Args: M{"dt": int64(1)}},
+			vlStep{Ev: pick("send", "dao_fund", "eth_value", "multisend", "gov_deposit"), Args: M{"how": pick("sp", "all", "half")}})
+		nsteps = 4 + r.Intn(6)
+	}
+	if flavor == 2 {
+		// into the crossing window, then spends in either denomination
+		sc.Cfg.Init.StartOff = 0
+		sc.Steps = append(sc.Steps, vlStep{Ev: "tick", Args: M{"to": "next", "off": int64(r.Intn(2))}})
+		for j := 0; j < 4; j++ {
+			sc.Steps = append(sc.Steps, vlStep{Ev: pick("send", "multisend", "dao_fund", "gov_deposit", "exec_send", "exec_dao_fund", "convert_coin", "send_erc20", "eth_value"),
+				Args: M{"how": pick("sp", "sp", "half", "all"), "denom": pick(vlBond, vlLiq)}})
+		}
+		nsteps = 4 + r.Intn(6)
+	}
 	for i := 0; i < nsteps; i++ {
 		var st vlStep
 		switch k := r.Intn(20); {
@@ -1337,7 +1381,7 @@ func vlRandomScript(r *rand.Rand, seed int64) vlScript {
 		case k < 18:
 			switch r.Intn(4) {
 			case 0:
-				st = vlStep{Ev: "clawback", Args: M{}}
+				st = vlStep{Ev: pick("clawback", "convert_back", "exec_convert_back"), Args: M{}}
 			case 1:
 				st = vlStep{Ev: "slash", Args: M{}}
 			case 2:
@@ -1349,13 +1393,21 @@ func vlRandomScript(r *rand.Rand, seed int64) vlScript {
 			ev := pick("merge", "convert_into", "convert_into_stake")
 			one := func() map[string]any { return map[string]any{vlBond: fmt.Sprint(1 + r.Intn(2)), vlLiq: "0"} }
 			amt := one()
+			// the grant's lockup and vesting schedules have different shapes: one or two periods each,
+			// vesting ahead of the lockup or the reverse
+			shape := func() []any {
+				if r.Intn(2) == 0 || fmt.Sprint(amt[vlBond]) == "1" {
+					return []any{map[string]any{"len": lens[r.Intn(len(lens))], "amt": amt}}
+				}
+				h := map[string]any{vlBond: "1", vlLiq: "0"}
+				return []any{map[string]any{"len": lens[r.Intn(len(lens))], "amt": h}, map[string]any{"len": lens[r.Intn(len(lens))], "amt": h}}
+			}
 			offs := []int64{-30, 0, 0, 10}
 			if ev == "convert_into_stake" {
 				offs = []int64{-70, -70, -25, 0}
 			}
 			g := map[string]any{"startOff": offs[r.Intn(4)],
-				"lockup":  []any{map[string]any{"len": lens[r.Intn(len(lens))], "amt": amt}},
-				"vesting": []any{map[string]any{"len": lens[r.Intn(len(lens))], "amt": amt}}}
+				"lockup": shape(), "vesting": shape()}
 			st = vlStep{Ev: ev, Args: M{"grant": g}}
 		default:
 			if sc.Cfg.Init.Grants {
